@@ -444,6 +444,256 @@ def has_prefix(d, r):
             return False
 
 
+EXT_SPACES = {
+    # space: (in-bounds facts builder, reason when a clause is listed instead)
+    B + 'SO2StateSpace': 'value',
+    B + 'TimeStateSpace': 'position',
+    B + 'DiscreteStateSpace': 'value',
+    B + 'SO3StateSpace': None,
+}
+
+
+def bounds_facts(F, rec):
+    """normal form of satisfiesBounds(x) for x in {a, b}, as lists of (poly <= 0) facts per path of satisfiesBounds"""
+    f = definer(F, rec, 'satisfiesBounds')
+    if f is None or f.record != rec:
+        return None
+    out = {}
+    for s in (A, Bs):
+        ctx = mk_ctx(F, rec)
+        m = sym.Machine(F, ctx)
+        m.split = 'all'
+        st = {'env': {f.params[0]['did']: s}, 'heap': [], 'alias': {}, 'this': ('T',), 'facts': []}
+        r = m.block(f, [f.body], st)
+        out[s] = [(fa, lr) for fa, lst, lr in sym.leaves(r, st)]
+    return out
+
+
+def dnf(b):
+    """disjunctive normal form of a boolean normal form: list of conjunctions (lists of literals)"""
+    if b is True:
+        return [[]]
+    if b is False:
+        return []
+    if isinstance(b, tuple) and b and b[0] == 'and':
+        out = [[]]
+        for x in b[1:]:
+            out = [c + d for c in out for d in dnf(x)]
+        return out
+    if isinstance(b, tuple) and b and b[0] == 'or':
+        out = []
+        for x in b[1:]:
+            out += dnf(x)
+        return out
+    return [[b]]
+
+
+def literal_polys(b):
+    """[(Poly, strict)] for a numeric literal p <= 0 / p < 0, else None"""
+    if isinstance(b, tuple) and b and b[0] in ('le0', 'lt0'):
+        return [(sym.from_key(b[1]), b[0] == 'lt0')]
+    return None
+
+
+def expand_ite(p, facts_=()):
+    """[(facts, poly)]: every undecided c ? x : y inside p is split into its two cases"""
+    for a in p.atoms():
+        if isinstance(a, tuple) and a[0] == 'ite':
+            c = a[1]
+            out = []
+            for cond, key_ in ((c, a[2]), (sym.b_not(c), a[3])):
+                q = p.subst(lambda z: sym.from_key(key_) if z == a else None)
+                out += expand_ite(q, tuple(facts_) + (cond,))
+            return out
+    return [(tuple(facts_), p)]
+
+
+def r06g(rep, F):
+    rep.rule('R06g', 'distance <= getMaximumExtent() for in-bounds states, in normal form with one or two assumed facts: for SO(2), time, '
+                     'discrete and SO(3) every path of distance(a, b), under the conjunction that satisfiesBounds(a) and satisfiesBounds(b) '
+                     'return true on (the space\'s own normal form, tolerance terms dropped), has value - extent <= 0 on every path of '
+                     'getMaximumExtent(); |x| is split into x and -x, acos(|.|) <= pi/2.  A difference that still depends on a state '
+                     'field no assumed fact mentions is unbounded: a violation')
+    n = 0
+    half_pi = Poly.atom(('g', 'boost::math::double_constants::pi')).scale(sym.Fraction(1, 2))
+    for rec in sorted(EXT_SPACES):
+        fd_ = definer(F, rec, 'distance', SIG2)
+        fe = definer(F, rec, 'getMaximumExtent')
+        if fd_ is None or fe is None:
+            raise AnalysisBroken('R06g: anchors vanished for ' + rec)
+        # in-bounds facts: every disjunct of satisfiesBounds(a) && satisfiesBounds(b)
+        bf = bounds_facts(F, rec)
+        facts_sets = [([], [])]
+        if bf is not None:
+            per_state = []
+            for s in (A, Bs):
+                alts = []
+                for fa, lr in bf[s]:
+                    if isinstance(lr, Poly):
+                        raise AnalysisBroken('R06g: satisfiesBounds of %s is not boolean' % rec)
+                    for conj in dnf(lr):
+                        nums, flags = [], list(fa)
+                        for lit in conj:
+                            lp = literal_polys(lit)
+                            if lp is None:
+                                flags.append(lit)
+                            else:
+                                nums += lp
+                        alts.append((flags, nums))
+                per_state.append(alts)
+            facts_sets = [(x[0] + y[0], x[1] + y[1]) for x in per_state[0] for y in per_state[1]]
+            facts_sets = [fs for fs in facts_sets if not any(sym.b_not(z) in fs[0] for z in fs[0])]
+        probs_by = {}
+        probs = []
+        decided = 0
+        for pathfacts, lits in facts_sets:
+            ctx = mk_ctx(F, rec)
+            ctx.pairs = True
+            eps = ('app', 'std::numeric_limits::epsilon')
+            for p, strict in lits:
+                # drop tolerance terms (epsilon) from the bounds: v < pi + eps  ->  v <= pi
+                p2 = Poly({m: c for m, c in p.t.items() if not any(a == eps for a, e in m)})
+                ctx.le0.append(p2)
+            m = sym.Machine(F, ctx)
+            m.split = 'all'
+            st = {'env': {}, 'heap': [], 'alias': {}, 'this': ('T',), 'facts': list(pathfacts)}
+            for p_, v in zip(fd_.params, (A, Bs)):
+                st['env'][p_['did']] = v
+            try:
+                r = m.block(fd_, [fd_.body], st)
+                dleaves = sym.leaves(r, st)
+                me = sym.Machine(F, mk_ctx(F, rec))
+                me.split = 'all'
+                ste = {'env': {}, 'heap': [], 'alias': {}, 'this': ('T',), 'facts': list(pathfacts)}
+                re_ = me.block(fe, [fe.body], ste)
+                eleaves = sym.leaves(re_, ste)
+            except Unsupported as e:
+                raise AnalysisBroken('R06g: %s outside the fragment: %s' % (rec, e))
+            for dfa, dst, dv0 in dleaves:
+                for efa, est, ev0 in eleaves:
+                    if not isinstance(dv0, Poly) or not isinstance(ev0, Poly):
+                        raise AnalysisBroken('R06g: non-numeric distance / extent for ' + rec)
+                    for xf, diff_ in expand_ite(dv0 - ev0):
+                        fs = set(dfa) | set(efa) | set(xf) | set(pathfacts)
+                        if any(sym.b_not(x) in fs for x in fs) or False in fs:
+                            continue                     # contradictory paths
+                        c2 = mk_ctx(F, rec)
+                        c2.pairs = True
+                        c2.le0 = list(ctx.le0)
+                        for x in fs:
+                            for p, strict in (literal_polys(x) or []):
+                                (c2.lt0 if strict else c2.le0).append(p)
+                        base_mentioned = set()
+                        for q in c2.le0 + c2.lt0:
+                            base_mentioned |= set(q.atoms())
+                        for alt, extra in expand_abs_cases(diff_, c2, half_pi):
+                            decided += 1
+                            c3 = mk_ctx(F, rec)
+                            c3.pairs = True
+                            c3.le0, c3.lt0 = list(extra[0]), list(extra[1])
+                            sg = c3.sign(alt)
+                            c2_saved, c2 = c2, c3
+                            if sg in ('<0', '<=0', '=0'):
+                                c2 = c2_saved
+                                continue
+                            mentioned = base_mentioned
+                            free = [a for a in alt.atoms() if isinstance(a, tuple) and a[0] == 'rd' and _rooted(a[1]) and a not in mentioned]
+                            cond_txt = [sym.show(x)[:70] for x in fs if x is not True] or 'no condition'
+                            flags = sorted(sym.show(x)[:60] for x in fs if x is not True and literal_polys(x) is None)
+                            probs_by.setdefault('; '.join(flags), [])
+                            probs = probs_by['; '.join(flags)]
+                            if free:
+                                probs.append('under %s distance - extent = %s, and no in-bounds fact constrains %s: the distance exceeds '
+                                             'the reported extent' % (cond_txt, sym.show(alt)[:120], sym.show_atom(free[0])))
+                            else:
+                                probs.append('distance - extent = %s is not shown <= 0 under %s' % (sym.show(alt)[:160], cond_txt))
+                            c2 = c2_saved
+        n += 1
+        if not probs_by:
+            rep.add('R06g', fd_.name, 'within-extent', decided > 0, fd_.where(fd_.nodes[fd_.body]), 'distance <= extent on %d case(s)' % decided)
+        for flags, pl in sorted(probs_by.items()):
+            pl.sort(key=lambda t: 0 if 'exceeds' in t else 1)
+            rep.add('R06g', fd_.name, 'within-extent' + ('[%s]' % flags if flags else ''), False, fd_.where(fd_.nodes[fd_.body]), pl[0])
+    rep.undecided('R06g', B + 'RealVectorStateSpace::distance', 'within-extent', 'needs monotonicity of the Euclidean norm in each |a_i - b_i| <= high_i - low_i; '
+                  'not a one- or two-fact linear argument')
+    rep.require_count('R06g', 'extent instances', n, 4)
+
+
+def expand_abs_cases(p, ctx, half_pi):
+    """[(poly, (le0 facts, lt0 facts))]: case split on the sign of every |x| occurring in p or in the assumed facts (|x| = x with
+    -x <= 0, or |x| = -x with x <= 0), applied consistently to the expression and to the facts; acos(|x|) <= pi/2"""
+    le0, lt0 = list(ctx.le0), list(ctx.lt0)
+
+    def find(polys):
+        for q in polys:
+            for a in q.atoms():
+                if isinstance(a, tuple) and a[0] == 'app' and a[1] == 'fabs':
+                    return a
+        return None
+    cases = [(p, le0, lt0)]
+    out = []
+    while cases:
+        q, l0, l1 = cases.pop()
+        a = find([q] + l0 + l1)
+        if a is None:
+            # acos(y) <= pi/2 when the facts give y >= 0
+            c = sym.Ctx()
+            c.pairs = True
+            c.le0, c.lt0 = l0, l1
+            for at in list(q.atoms()):
+                if isinstance(at, tuple) and at[0] == 'app' and at[1] == 'acos' and len(at) == 3:
+                    coef = [cf for m_, cf in q.t.items() if m_ == ((at, 1),)]
+                    if len(coef) == 1 and c.sign(sym.from_key(at[2])) in ('>0', '>=0', '=0'):
+                        q = q.subst(lambda z, at=at, cf=coef[0]: (half_pi if cf > 0 else Poly()) if z == at else None)
+            for alt in expand_abs(q, half_pi):
+                out.append((alt, (l0, l1)))
+            continue
+        x = sym.from_key(a[2])
+        for sgn in (1, -1):
+            rep_ = x.scale(sgn)
+            sub = lambda z, rep_=rep_: rep_ if z == a else None
+            cases.append((q.subst(sub), [f.subst(sub) for f in l0] + [x.scale(-sgn)], [f.subst(sub) for f in l1]))
+    return out
+
+
+def expand_abs(p, half_pi):
+    """alternatives of p with every |x| replaced by x and by -x, and acos(|x|) by its upper bound pi/2"""
+    alts = [p]
+    changed = True
+    while changed:
+        changed = False
+        new = []
+        for q in alts:
+            hit = None
+            for a in q.atoms():
+                if isinstance(a, tuple) and a[0] == 'app' and a[1] == 'fabs':
+                    hit = ('abs', a)
+                    break
+                if isinstance(a, tuple) and a[0] == 'app' and a[1] == 'acos' and 'fabs' in repr(a[2]):
+                    hit = ('acos', a)
+                    break
+            if hit is None:
+                new.append(q)
+                continue
+            changed = True
+            kind, a = hit
+            coef = [c for m_, c in q.t.items() if m_ == ((a, 1),)]
+            if len(coef) != 1 or any(a in dict(m_) and m_ != ((a, 1),) for m_ in q.t):
+                new.append(q.subst(lambda z: Poly.atom(('opaque', a)) if z == a else None))
+                continue
+            if kind == 'abs':
+                x = sym.from_key(a[2])
+                new.append(q.subst(lambda z: x if z == a else None))
+                new.append(q.subst(lambda z: -x if z == a else None))
+            else:
+                if coef[0] > 0:
+                    new.append(q.subst(lambda z: half_pi if z == a else None))
+                else:
+                    new.append(q.subst(lambda z: Poly() if z == a else None))
+        alts = new
+    return alts
+
+
 def _rooted(r):
     root = r
     while isinstance(root, tuple) and root and root[0] in ('F', 'I', 'N'):
@@ -608,3 +858,4 @@ def run(rep):
     r06b(rep, F)
     r06cde(rep, F)
     r06f(rep, F)
+    r06g(rep, F)
